@@ -23,6 +23,7 @@ var c04Pools = [][2]string{
 	{"[z]", "{m}"}, {"&a", "!t"}, {"%p", "@"}, {"|", ">"}, {"true", "0x1F"}, {"é", "é"},
 	{" ", "\u0085x"}, {`\n`, `\"`}, {"=", ","}, {"?", ":"}, {"''", `""`}, {"<<", "y"}, {"\x1b[0m", "\x00"},
 	{"2001:12:14", "0o7"}, {".inf", "_"}, {"N", "Off"}, {"`", "$("}, {"key=", "[["},
+	{"null", "~"}, {"~", "Null"}, {"123", "2001-12-14"}, {"0x1f", "-.5"},
 }
 
 func c04Conc(i int) *tok.Conc {
@@ -130,7 +131,7 @@ func checkDecoded(r *evid.Run, d *DocState, c *tok.Conc, doc, route string, er e
 
 func checkC04(r *evid.Run) {
 	cfg, timeout := "MC_C04_quick.cfg", 5*time.Minute
-	npools := 8
+	npools := 10
 	if r.Tier == "thorough" {
 		cfg, timeout, npools = "MC_C04_thorough.cfg", 25*time.Minute, len(c04Pools)
 	}
